@@ -1,6 +1,9 @@
-//! C13, hand-written: the f32 instance of the in-place slice guard (thorough tier). All other C13 harnesses are generated
+//! C13, hand-written: the f32 instances of the in-place slice guard (thorough tier; bounded by what CBMC's float
+//! divider allows: a symbolic/symbolic f32 division does not finish in 3000 s, so the restore direction Hwb -> Hsv uses
+//! concrete divisors). All other C13 harnesses are generated
 //! (gen/c13.py -> c13_gen.rs) over the harness wrapping-integer component type.
 use palette::convert::{FromColorUnclamped, FromColorUnclampedMut};
+use palette::{FromColor, FromColorMut};
 use palette::encoding::Srgb;
 use palette::{Hsv, Hwb};
 
@@ -26,19 +29,25 @@ fn any_hsv() -> Af {
     Hsv::new_const(palette::RgbHue::new(h), s, v)
 }
 
+fn any_finite() -> f32 {
+    let x: f32 = kani::any();
+    kani::assume(x.is_finite());
+    x
+}
+
 /// f32 instance (real component type, no harness type): <[Hwb<Srgb, f32>]>::from_color_unclamped_mut on a slice of
-/// concrete length 2 with arbitrary finite components: the guard shows element for element Hwb::from_color_unclamped(a_i)
-/// at the original address/length, and dropping it leaves Hsv::from_color_unclamped(Hwb::from_color_unclamped(a_i))
-/// (component-wise numerically equal, or both NaN, to the out-of-place conversion; one float division per element on
-/// the way back).
+/// concrete length 2 with arbitrary finite components: the guard shows element for element
+/// Hwb::from_color_unclamped(a_i) at the original address/length (component-wise numerically equal, or both NaN, to the
+/// out-of-place conversion), and core::mem::forget(guard) leaves exactly that converted state in the buffer (read back
+/// through palette::cast::into_array_slice).
 /// @fn <[Hwb<Srgb, f32>] as FromColorUnclampedMut<[Hsv<Srgb, f32>]>>::from_color_unclamped_mut
 /// @fn <FromColorUnclampedMutGuard as Deref>::deref
-/// @fn <FromColorUnclampedMutGuard as Drop>::drop
+/// @fn core::mem::forget(guard)
 /// @bound len = 2, all finite f32 components
 /// @thorough
 #[kani::proof]
 #[kani::unwind(5)]
-pub fn c13_f32_view_unclamped_n2() {
+pub fn c13_f32_view_forget_unclamped_n2() {
     let orig: [Af; 2] = [any_hsv(), any_hsv()];
     let mut buf = orig;
     let p0 = buf.as_ptr() as usize;
@@ -49,8 +58,78 @@ pub fn c13_f32_view_unclamped_n2() {
         for i in 0..2 {
             assert!(same_hwb(&g[i], &Bf::from_color_unclamped(orig[i])));
         }
+        core::mem::forget(g);
+    }
+    let raw: &[[f32; 3]] = palette::cast::into_array_slice(&buf[..]);
+    assert!(raw.len() == 2 && raw.as_ptr() as usize == p0);
+    for i in 0..2 {
+        let e = Bf::from_color_unclamped(orig[i]);
+        let [h, w, b] = raw[i];
+        assert!(feq(h, e.hue.into_inner()) && feq(w, e.whiteness) && feq(b, e.blackness));
+    }
+}
+
+/// f32 instance: drop of a live FromColorUnclampedMutGuard<[Hwb<Srgb, f32>], [Hsv<Srgb, f32>]> on a slice of concrete
+/// length 2 (built from arbitrary finite colours, then both elements overwritten through DerefMut): the buffer holds
+/// Hsv::from_color_unclamped(b_i) of the current contents. The current contents have arbitrary finite hue and
+/// whiteness and a concrete blackness (0.25: valid divisor 0.75; 1.0: invalid divisor branch), because a symbolic
+/// f32 divisor does not finish.
+/// @fn <FromColorUnclampedMutGuard as DerefMut>::deref_mut
+/// @fn <FromColorUnclampedMutGuard as Drop>::drop
+/// @fn <[Hwb<Srgb, f32>] as FromColorUnclampedMut<[Hsv<Srgb, f32>]>>::from_color_unclamped_mut
+/// @bound len = 2, original contents all finite f32; current contents: hue, whiteness all finite f32, blackness = 0.25 (element 0) and 1.0 (element 1)
+/// @thorough
+#[kani::proof]
+#[kani::unwind(5)]
+pub fn c13_f32_drop_unclamped_n2() {
+    let orig: [Af; 2] = [any_hsv(), any_hsv()];
+    let cur: [Bf; 2] = [
+        Hwb::new_const(palette::RgbHue::new(any_finite()), any_finite(), 0.25),
+        Hwb::new_const(palette::RgbHue::new(any_finite()), any_finite(), 1.0),
+    ];
+    let mut buf = orig;
+    let p0 = buf.as_ptr() as usize;
+    kani::cover!(true);
+    {
+        let mut g = <[Bf]>::from_color_unclamped_mut(&mut buf[..]);
+        assert!(g.len() == 2 && g.as_ptr() as usize == p0);
+        for i in 0..2 {
+            g[i] = cur[i];
+        }
     }
     for i in 0..2 {
-        assert!(same_hsv(&buf[i], &Af::from_color_unclamped(Bf::from_color_unclamped(orig[i]))));
+        assert!(same_hsv(&buf[i], &Af::from_color_unclamped(cur[i])));
+    }
+}
+
+/// f32 instance: drop of a live FromColorMutGuard<[Hwb<Srgb, f32>], [Hsv<Srgb, f32>]> (clamping guard) on a slice of
+/// concrete length 2 (built from arbitrary finite colours, then both elements overwritten through DerefMut): the
+/// buffer holds Hsv::from_color(b_i) (converted and clamped) of the current contents. Current contents as in
+/// c13_f32_drop_unclamped_n2 (concrete blackness).
+/// @fn <FromColorMutGuard as DerefMut>::deref_mut
+/// @fn <FromColorMutGuard as Drop>::drop
+/// @fn <[Hwb<Srgb, f32>] as FromColorMut<[Hsv<Srgb, f32>]>>::from_color_mut
+/// @bound len = 2, original contents all finite f32; current contents: hue, whiteness all finite f32, blackness = 0.25 (element 0) and 1.0 (element 1)
+/// @thorough
+#[kani::proof]
+#[kani::unwind(5)]
+pub fn c13_f32_drop_clamped_n2() {
+    let orig: [Af; 2] = [any_hsv(), any_hsv()];
+    let cur: [Bf; 2] = [
+        Hwb::new_const(palette::RgbHue::new(any_finite()), any_finite(), 0.25),
+        Hwb::new_const(palette::RgbHue::new(any_finite()), any_finite(), 1.0),
+    ];
+    let mut buf = orig;
+    let p0 = buf.as_ptr() as usize;
+    kani::cover!(true);
+    {
+        let mut g = <[Bf]>::from_color_mut(&mut buf[..]);
+        assert!(g.len() == 2 && g.as_ptr() as usize == p0);
+        for i in 0..2 {
+            g[i] = cur[i];
+        }
+    }
+    for i in 0..2 {
+        assert!(same_hsv(&buf[i], &Af::from_color(cur[i])));
     }
 }
